@@ -870,8 +870,8 @@ fn main() {
          complete single-edit neighbourhoods of the message and RDATA seed corpus; f5: ALL 65,536 values of every 16-bit window of \
          one-record messages around the RFC RDATA of the alphabet (quick: windows starting in the first 8 RDATA octets, fixed fields on \
          every 8th seed; thorough: every window of every entry); structure-aware edits (16-bit windows x 8 boundary values; thorough: \
-         S-substitutions, truncations) of 17 KiB..64 KiB seeds (thorough: every offset of the 17 KiB seed; else the first/last 256 \
-         octets and 0x3f80..0x4080); 22 growth families) that decodes and re-encodes: decode(encode(decode(b))) == decode(b), and \
+         S-substitutions, truncations) of 17 KiB..64 KiB seeds (quick: one seed, thorough: three) at the first/last 256 octets and \
+         0x3f80..0x4080; 22 growth families) that decodes and re-encodes: decode(encode(decode(b))) == decode(b), and \
          RDATA of every type other than NS/CNAME/PTR/MX/SOA/obsolete-1035/OPT is octet-identical (inputs with a compression pointer \
          inside a name that RFC 3597 forbids to compress are logged, not judged). distinct_nontrivial: direction 1 = distinct \
          encodings that contain a compression pointer, EDNS, TSIG or an extended rcode; direction 2 = distinct accepted inputs with at \
@@ -1184,12 +1184,13 @@ fn main() {
     // f3L: structure-aware single edits of large seeds (17 KiB .. 64 KiB)
     let large = ext::large_seeds(&al, if thorough { &[0, 1, 2] } else { &[0] });
     ctx.set("d2_large_seeds", json!(large.iter().map(|s| json!({"tag": s.tag, "len": s.bytes.len()})).collect::<Vec<_>>()));
-    // offsets edited: thorough = every offset of the 17 KiB seed; otherwise the regions where the
-    // position matters: the first 256 octets, 0x3f80..0x4080 (14-bit pointer limit), the last 256
+    // offsets edited: the regions where the position matters: the first 256 octets, 0x3f80..0x4080
+    // (14-bit pointer limit), the last 256 (a complete sweep of one 17 KiB seed costs ~15 CPU minutes)
     let mut litems: Vec<(usize, usize, usize)> = vec![];
     for (k, s) in large.iter().enumerate() {
         let n = s.bytes.len();
-        let regions: Vec<(usize, usize)> = if thorough && k == 0 { vec![(0, n)] } else { vec![(0, 256), (0x3f80, 0x4080.min(n)), (n - 256, n)] };
+        let _ = k;
+        let regions: Vec<(usize, usize)> = vec![(0, 256), (0x3f80, 0x4080.min(n)), (n - 256, n)];
         for (lo, hi) in regions {
             let mut a = lo;
             while a < hi {
